@@ -454,6 +454,69 @@ static void stress_shared(Json& js, vh::Rng& rng, int T, int calls) {
     (void)rng;
 }
 
+// (a) every thread reads the SAME input arrays (read-only data shared between threads is not a data race for a library that
+//     takes its arguments by const reference), through free functions and shared plans; the inputs must be bit-identical
+//     afterwards.  (b) a shared plan whose very first solve() calls happen concurrently: the references come from a separate
+//     plan object, nothing warms the shared one up.  Repeated with fresh plans to meet short windows.
+static void stress_shared_inputs(Json& js, vh::Rng& rng, int T, int reps) {
+    (void)rng;
+    static const int NL[] = {8, 12, 45, 60, 64, 86, 127, 210};
+    long bad_in = 0, bad_cold = 0, touched = 0, ncalls = 0;
+    for (int n : NL) {
+        const arr_cmplx xc = cin(n, 7);
+        const arr_real xr = rin(n, 7);
+        const arr_cmplx keepc = xc;
+        const arr_real keepr = xr;
+        arr_cmplx rf, ri, rr;
+        arr_real rh;
+        {
+            std::thread th([&] { rf = fft(xc), ri = ifft(xc), rr = rfft(xr); rh = real(hilbert(xr)); });
+            th.join();
+        }
+        IfftPlan ip(n);
+        FftPlan fp(n);
+        bad_in += run_threads(T, [&](int) {
+            long b = 0;
+            for (int c = 0; c < 40; ++c) {
+                b += close_c(fft(xc), rf, n) ? 0 : 1;
+                b += close_c(ifft(xc), ri, n) ? 0 : 1;
+                b += close_c(ip(xc), ri, n) ? 0 : 1;
+                b += close_c(fp(xc), rf, n) ? 0 : 1;
+                b += close_c(rfft(xr), rr, n) ? 0 : 1;
+                b += close_r(real(hilbert(xr)), rh, n) ? 0 : 1;
+            }
+            return b;
+        });
+        ncalls += 240L * T;
+        for (int i = 0; i < n; ++i) {
+            touched += std::memcmp(&xc[i], &keepc[i], sizeof(cmplx_t)) != 0 || std::memcmp(&xr[i], &keepr[i], sizeof(real_t)) != 0;
+        }
+        for (int rep = 0; rep < reps; ++rep) {
+            FftPlan refp(n);
+            FftPlanR refr(n);
+            std::vector<arr_cmplx> xs, want, wantr;
+            std::vector<arr_real> xrs;
+            for (int t = 0; t < T; ++t) {
+                xs.push_back(cin(n, 20 + t));
+                xrs.push_back(rin(n, 20 + t));
+                want.push_back(refp(xs.back()));
+                wantr.push_back(refr(xrs.back()));
+            }
+            FftPlan cold(n);     // never used before the threads start
+            FftPlanR coldr(n);
+            IfftPlan coldi(n);
+            bad_cold += run_threads(T, [&](int t) {
+                long b = close_c(cold(xs[t]), want[t], n) ? 0 : 1;
+                b += close_c(coldr(xrs[t]), wantr[t], n) ? 0 : 1;
+                b += close_c(coldi(want[t]), xs[t], n) ? 0 : 1;
+                return b;
+            });
+        }
+    }
+    js.begin("Stress").str("kind", "shared read-only inputs").num("n", 0).num("threads", T).num("calls", ncalls).num("mismatches", bad_in + touched).end();
+    js.begin("Stress").str("kind", "cold shared plans").num("n", 0).num("threads", T).num("calls", reps).num("mismatches", bad_cold).end();
+}
+
 // random mixes of free functions and distinct objects, results compared with single-threaded references
 static void stress_free(Json& js, vh::Rng& rng, int T, int ops) {
     static const int LENS[] = {5, 6, 7, 12, 15, 16, 21, 30, 32, 43, 47, 60, 64, 86, 100, 128, 210};
@@ -839,6 +902,7 @@ int main(int argc, char** argv) {
         stress_cold(js, T);   // first: nothing has been warmed up single-threaded yet
         for (long t = 0; t < budget; ++t) {
             stress_shared(js, rng, T, 20);
+            stress_shared_inputs(js, rng, T, 30);
             stress_free(js, rng, T, 60);
             stress_construct(js, rng, T, 40);
         }
